@@ -41,13 +41,13 @@ pub fn dead_code_elimination(function: &il::Function) -> Result<il::Function, Er
             };
             let rpl = il::RefProgramLocation::new(function, rfl);
 
-            rd.get(&rpl.into())
-                .unwrap()
-                .locations()
-                .iter()
-                .for_each(|location| {
+            // Blocks which are unreachable from the entry have no reaching
+            // definitions.
+            if let Some(reaching) = rd.get(&rpl.into()) {
+                reaching.locations().iter().for_each(|location| {
                     live.insert(location.function_location().clone());
                 });
+            }
         });
 
     for block in function.blocks() {
@@ -58,9 +58,11 @@ pub fn dead_code_elimination(function: &il::Function) -> Result<il::Function, Er
                         function,
                         il::RefFunctionLocation::Instruction(block, instruction),
                     );
-                    rd[&rpl.into()].locations().iter().for_each(|location| {
-                        live.insert(location.function_location().clone());
-                    });
+                    if let Some(reaching) = rd.get(&rpl.into()) {
+                        reaching.locations().iter().for_each(|location| {
+                            live.insert(location.function_location().clone());
+                        });
+                    }
                 }
                 _ => {}
             }
@@ -88,7 +90,13 @@ pub fn dead_code_elimination(function: &il::Function) -> Result<il::Function, Er
                 .unwrap_or(false)
         })
         .filter(|location| !live.contains(&location.clone().into()))
-        .filter(|location| du[&location.clone().program_location(function).into()].is_empty())
+        // Instructions in blocks which are unreachable from the entry have no
+        // def-use information, and are left alone.
+        .filter(|location| {
+            du.get(&location.clone().program_location(function).into())
+                .map(|uses| uses.is_empty())
+                .unwrap_or(false)
+        })
         .map(|l| l.into())
         .collect::<Vec<il::FunctionLocation>>();
 
